@@ -112,6 +112,14 @@ class Faults(Part):
                          mode="serial" if workers == 1 else "parallel", workers=workers)
         if mixed:
             rec.problem.parameters[0]['precision'] = mixed_prec
+        elif case["cseed"] % 4 == 1:
+            # a zooming study: the algorithm (with its evaluator and job) exists already when the problem is given a NEW, narrower parameter
+            # list; a design put in place of a failed one is drawn from the box the problem declares now
+            from artap.algorithm import DummyAlgorithm
+            rec._alg = DummyAlgorithm(rec.problem)
+            bounds = [[lb + (ub - lb) * 0.25, ub - (ub - lb) * 0.25] for lb, ub in bounds]
+            rec.problem.parameters = [dict(p, bounds=list(b)) for p, b in zip(rec.problem.parameters, bounds)]
+            rec.bounds = [list(b) for b in bounds]
         vectors = [[rng.uniform(b[0], b[1]) for b in bounds] for _ in range(n)]
         rec.new_batch(vectors, pre=pre)
         exc = jobrec.evaluate_batch(rec, workers=workers)
